@@ -32,6 +32,9 @@ type SFile struct {
 	URL string `json:"url,omitempty"`
 	// ClashDef: the definition named like another definition's inline type (KF-C10-4 scope)
 	ClashDef string `json:"clash_def,omitempty"`
+	// AliasOf: this definition also exists under the name <def>Al = {"type":"object","$ref":"#/$defs/<def>"} (a typed
+	// alias); other documents may refer to the alias and must get the type of the definition of THIS document
+	AliasOf string `json:"alias_of,omitempty"`
 	// CRLF (YAML only): saved with CRLF line ends and block scalars for multi-line text
 	CRLF bool `json:"crlf,omitempty"`
 	// RootObj: the root is {"type":"object", properties...} and carries marker mk_<tag>.
@@ -443,8 +446,17 @@ func genWorld(t *rapid.T, maxFiles int, recCombo, http, shadows bool) *World {
 		// names of marker-carrying object definitions are fixed before bodies so
 		// that other files can refer to them
 		nd := rapid.IntRange(0, 2).Draw(t, "ndefs")
+		// one file in eight spells its definition names with a letter whose lower-case form has another byte
+		// length (Turkish capital dotted I): names are compared case-insensitively in places
+		uni := ""
+		if rapid.IntRange(0, 7).Draw(t, "unicodedefs") == 0 {
+			uni = "\u0130L"
+		}
+		if nd > 0 && rapid.IntRange(0, 3).Draw(t, "aliasdef") == 0 {
+			f.AliasOf = fmt.Sprintf("%sDa%s", strings.ToUpper(f.Tag[:1])+f.Tag[1:], uni)
+		}
 		for d := 0; d < nd; d++ {
-			f.Defs = append(f.Defs, fmt.Sprintf("%sD%c", strings.ToUpper(f.Tag[:1])+f.Tag[1:], 'a'+d))
+			f.Defs = append(f.Defs, fmt.Sprintf("%sD%c%s", strings.ToUpper(f.Tag[:1])+f.Tag[1:], 'a'+d, uni))
 		}
 		f.RootObj = !(feat.TypelessRoot && rapid.IntRange(0, 3).Draw(t, "typeless") == 0)
 		f.BothDefs = rapid.IntRange(0, 99).Draw(t, "bothdefs") < 12
@@ -702,6 +714,14 @@ func drawOptions(t *rapid.T, w *World, npkg int) Options {
 		if (o.Output == "" || o.Output == "-") && !b("stdoutdefault", 30) {
 			o.Output = "out/main/gen.go"
 		}
+		if SelfNamedDefs && b("allstdout", 10) {
+			// (C12 worlds only) every package is sent to standard output: rejected today ("same file, two
+			// packages"); should it ever be allowed, the order of the sections must not be left to a map
+			o.Output = ""
+			for i := range o.SchemaOut {
+				o.SchemaOut[i].V = "-"
+			}
+		}
 	}
 	if npkg > 1 {
 		for _, f := range w.Files {
@@ -794,6 +814,9 @@ func (g *genCtx) genDoc() {
 		defs = append(defs, KV{d, g.genMarkerObject("mk_"+f.Tag+"_"+d, d)})
 	}
 	g.curDef = -1
+	if f.AliasOf != "" {
+		defs = append(defs, KV{f.AliasOf + "Al", Obj{{"type", "object"}, {"$ref", "#/" + defsKey + "/" + f.AliasOf}}})
+	}
 	// a NAMED list type: a definition of type array whose items are a reference (possibly into another file and
 	// package: `type T0Ls []other.T1Da`), used by a root property - the only mention of the other package may sit here
 	listDef := ""
@@ -1167,6 +1190,9 @@ func (g *genCtx) drawRef(fromDef string) (RefUse, bool) {
 		} else {
 			frag = "#/$defs/" + tg.def
 		}
+		if tg.file.AliasOf == tg.def && tg.file != f && g.pct("viaalias", 40) {
+			frag += "Al" // through the typed alias: still denotes tg.def of tg.file
+		}
 	}
 	if tg.file == f {
 		ru.Ref = frag
@@ -1443,7 +1469,12 @@ func (g *genCtx) genLeaf() any {
 			}
 		}
 		if g.feat.Formats && g.pct("format", 30) {
-			o = append(o, KV{"format", rapid.SampledFrom([]string{"date-time", "date", "time", "ipv4", "ipv6", "duration", "email"}).Draw(g.t, "fmt")})
+			fm := rapid.SampledFrom([]string{"date-time", "date", "time", "ipv4", "ipv6", "duration", "email"}).Draw(g.t, "fmt")
+			o = append(o, KV{"format", fm})
+			if fm == "date-time" && g.feat.Defaults && g.pct("dtdefault", 50) {
+				// a default with a numeric zone offset: how it is rendered must not depend on the zone the tool runs in
+				o = append(o, KV{"default", rapid.SampledFrom([]string{"2021-06-15T12:00:00+09:00", "2021-06-15T12:00:00+02:00", "2021-06-15T12:00:00-04:00", "2021-01-15T08:30:00Z"}).Draw(g.t, "dtdef")})
+			}
 		} else if g.feat.Defaults && g.pct("sdef", 30) {
 			o = append(o, KV{"default", "dflt"})
 		}
